@@ -132,6 +132,15 @@ fire("C10", "points setter no longer checks the shape", "R3b.setter-keeps-shape"
 fire("C10", "integer index converted to slice(i, i + 1) (empty selection for -1)", "R8.integer-to-slice",
      ("sub", "periodicgrid.py", "        if isinstance(index, (int, np.integer)):\n            return self.__class__(\n                np.array([self.points[index]]),\n                np.array([self.weights[index]]),\n                self.realvecs,\n            )\n        else:\n",
       "        if isinstance(index, (int, np.integer)):\n            index = slice(index, index + 1)\n        if True:\n"))
+fire("C10", "memo reset made conditional on a value comparison", "R3.memo-invalidated",
+     ("sub", "basegrid.py", "        # the neighbour tree was built for the old points\n        self._kdtree = None\n",
+      "        if not np.array_equal(value, self._points):\n            self._kdtree = None\n"))
+silent("C10", "memo reset guarded by the memo itself",
+       ("sub", "basegrid.py", "        # the neighbour tree was built for the old points\n        self._kdtree = None\n",
+        "        if self._kdtree is not None:\n            self._kdtree = None\n"))
+fire("C10", "selection index forced to an integer dtype (masks become positions)", "R9.index-dtype-preserved",
+     ("sub", "periodicgrid.py", "                np.array(self.points[index]),\n                np.array(self.weights[index]),\n                self.realvecs,\n            )\n\n",
+      "                np.array(self.points[np.asarray(index, dtype=int)]),\n                np.array(self.weights[np.asarray(index, dtype=int)]),\n                self.realvecs,\n            )\n\n"))
 silent("C10", "union-type spelling of the integer test",
        ("sub", "basegrid.py", "        if isinstance(index, (int, np.integer)):\n", "        if isinstance(index, int | np.integer):\n", 2))
 silent("C10", "emptiness guard instead of integer dtype",
